@@ -1799,7 +1799,12 @@ def cross_C19(lines, outs, models=None):
         # in the crate, which would change the harness's panic kind), or the checked build rejects
         mref = (models or {}).get(ref_name, [])
         mref = mref[k] if k < len(mref) else ""
-        ill = "PANIC:dim" in ref or ("PANIC:dim" in mref and "PANIC" in ref) or " err" in (" " + ref) or ref.startswith("err")
+        # (whether a program is dimensionally correct is decided by the MODEL, not by whether the checked build happens to panic:
+        # a checked build that panics on a well-dimensioned program while the unchecked build computes a value is exactly a C19 violation)
+        if mref:
+            ill = ("PANIC:dim" in mref) or ((" err" in (" " + mref) or mref.startswith("err")) and (" err" in (" " + ref) or ref.startswith("err")))
+        else:
+            ill = "PANIC:dim" in ref or " err" in (" " + ref) or ref.startswith("err")
         for n in names:
             if c.startswith(POWF_LINE) and config_tol_C19(n, c) == "skip":
                 continue
